@@ -8,6 +8,8 @@ claimed={
               note="Outside: >3 plugins, >2 items per plugin per family, duplicates inside one response (A-WF), concurrency of requests (decided under C06: requests are serialised by the Adaptation lock), ignore-failure updates (C05). Trusted: go/ssa, symgo semantics+intrinsics (fmt.Errorf abstract, strings.* as SMT ops), solver verdicts; counterexamples are replayed natively before being reported.", ref="5 C01"),
  "C02": dict(text="Same executions as C01 with the converse assertion: whenever the reference model sees no live claim on any item a (well-formed) response sets - including after a removal marker by the same or an intermediate plugin - the real apply must return nil; original container and runtime update request arbitrary incl. every resource field pre-populated. 2 plugins x <=2 items, 3 plugins (1,1,1 quick; 1,2,1 thorough), all 29 item kinds, updates on 20 resource kinds x 3 request kinds with different-field and same-field/different-key/different-target pairs.",
               note="Outside: >3 plugins, >2 items, responses that set one item twice (A-WF). 'never blamed for a field it did not set' is decided only through the no-error verdict, not through the error text.", ref="5 C02"),
+ "C05": dict(text="The real collect*Result / apply / *ContainerResponse code is compared entry by entry and field by field with a reference fold written from the statement (one entry per distinct target in first-touch order, own container last for update requests - placeholder if unchanged else runtime request overlaid -, exactly the set fields, update of the container under creation fails, conflicting ignore-failure update dropped whole). Symbolic: target ids (all equal/unequal patterns), presence and values of the active scalar fields, ignore-failure flags, pre-populated update request. Bounds: 2 plugins x 1 update (quick) / 1+2 updates and 3 plugins (thorough); 18 scalar resource fields singly and in 18 pairs; create/update/stop requests.",
+              note="Outside: >2 simultaneously active fields per instance (other fields are checked to stay unset), hugepage/unified entries in updates (conflicts on them are decided under C01/C02), a plugin setting the same field of the same target twice (A-WF), device-cgroup rules of the runtime request (Copy() does not carry them; see DESIGN F9).", ref="5 C05"),
 }
 NA_DEFAULT="check not built yet in this session (engine exists; harness for this property pending)"
 na={}
